@@ -313,7 +313,7 @@ def rule_R2(P, rep):
                "; ".join(why), loc=F.file, site="thread_join/suspend")
     rep.need(n >= 1, "thread_join never suspends")
     # callback: BLOCKED before p_link
-    C = P.fn("ABTI_ythread_callback_suspend_join", "src/ythread.c")
+    C = P.fn("ABTI_ythread_callback_suspend_join", "src/ythread.c", flat=True)
     BLOCKED = P.enum_consts["ABT_THREAD_STATE_BLOCKED"]
     sel = _Sel(fields={"state", "p_link"}, canon=True)
     for toks, kind, rv, rtxt in seq.sequences(C, sel):
